@@ -162,6 +162,7 @@ func lastCallCompN(name string, i int) string {
 }
 
 func (f *Frame) noteLastCall(c *ssa.CallCommon, res []Val) {
+	f.noteLastArgs(c)
 	if len(res) == 0 {
 		return
 	}
@@ -341,4 +342,93 @@ func (f *Frame) altBinding(name string) ssa.Value {
 		}
 	}
 	return best
+}
+
+// lastarg("Name", i): the i-th argument (numbered as in site conditions) of the most recent call, on the current
+// path, to a function or method with that short name.
+func lastArgComp(name string, i int) string { return fmt.Sprintf("Own_lastarg_%s_%d", sanitize(name), i) }
+
+func contractMentionsLastArg(rc *FuncContract, name string) bool {
+	needle := "lastarg(\"" + name + "\""
+	for _, s := range rc.Sites {
+		if strings.Contains(s.Text, needle) {
+			return true
+		}
+	}
+	for _, cs := range [][]*Clause{rc.Ensures, rc.AtRelease} {
+		for _, c := range cs {
+			if strings.Contains(c.Text, needle) {
+				return true
+			}
+		}
+	}
+	for _, l := range rc.Loops {
+		for _, c := range l.Invariants {
+			if strings.Contains(c.Text, needle) {
+				return true
+			}
+		}
+	}
+	return false
+}
+
+func (f *Frame) noteLastArgs(c *ssa.CallCommon) {
+	rc := f.rootContract()
+	if rc == nil || rc.Key == "" {
+		return
+	}
+	name := shortCallee(c)
+	if !contractMentionsLastArg(rc, name) {
+		return
+	}
+	for i, a := range c.Args {
+		v := f.val(a)
+		comp := lastArgComp(name, i)
+		f.vc.regComp(comp, v.S)
+		f.vc.set(f.cur, comp, v.T)
+		lastCallTypes.Store(comp, a.Type())
+	}
+}
+
+func init() {
+	extCalls["lastarg"] = func(e *Env, x *Expr) (Bound, error) {
+		if len(x.Args) != 2 || x.Args[0].Op != "str" {
+			return Bound{}, fmt.Errorf("lastarg(\"Name\", index)")
+		}
+		n, err := strconv.Atoi(x.Args[1].Name)
+		if err != nil {
+			return Bound{}, fmt.Errorf("lastarg: index must be a literal")
+		}
+		comp := lastArgComp(x.Args[0].Name, n)
+		ci, ok := e.vc.comps[comp]
+		if !ok {
+			// no such call yet on any path: register with the sort of the first matching call in the function
+			if e.f != nil {
+				for _, b := range e.f.fn.Blocks {
+					for _, in := range b.Instrs {
+						var cc *ssa.CallCommon
+						switch y := in.(type) {
+						case *ssa.Call:
+							cc = &y.Call
+						case *ssa.Defer:
+							cc = &y.Call
+						}
+						if cc != nil && shortCallee(cc) == x.Args[0].Name && n < len(cc.Args) {
+							e.vc.regComp(comp, e.vc.sortOf(cc.Args[n].Type()))
+							lastCallTypes.Store(comp, cc.Args[n].Type())
+						}
+					}
+				}
+			}
+			ci, ok = e.vc.comps[comp]
+			if !ok {
+				return Bound{}, fmt.Errorf("no call to %s in this function", x.Args[0].Name)
+			}
+		}
+		var t types.Type
+		if gt, ok := lastCallTypes.Load(comp); ok {
+			t = gt.(types.Type)
+		}
+		return Bound{V: Val{e.vc.get(e.state, comp), ci.sort}, T: t}, nil
+	}
 }
